@@ -27,7 +27,7 @@ theorem bool_from_words_eq (env : EvalEnv) (opt : AttrVal) (ws : List Word) :
   · simp [h1, Py.isNone]
   · by_cases h2 : isPlainAuto ws = true
     · simp [h1, h2, Py.isNone, Py.isAuto]
-    · simp only [h1, h2, Bool.false_eq_true, if_false, Py.isNone, Py.isAuto, Py.strOf, Py.lower, Py.where_]
+    · simp only [h1, h2, Bool.false_eq_true, if_false, Bool.or_self, Bool.or_false, Py.isNone, Py.isAuto, Py.strOf, Py.lower, Py.where_]
       generalize lower (joinWith [' '] (List.map (fun x => x.value) ws)) = l
       split
       · rfl
